@@ -14,29 +14,59 @@ import (
 
 // ---------------------------------------------------------------- C12.b
 
-// switchKeys: integer case values of the first tagged switch with constant integer cases in fi.
+// switchKeys: the integer keys a dispatch function distinguishes: case values of its tagged switches and
+// constants of `x == K` tests (if-chains), excluding nested bool switches. Keys are VALUES (go/types).
 func c12SwitchKeys(fi *FuncInfo) (keys []int64, pos token.Pos) {
 	info := fi.Pkg.TypesInfo
-	done := false
-	ast.Inspect(fi.Decl.Body, func(n ast.Node) bool {
-		sw, ok := n.(*ast.SwitchStmt)
-		if !ok || done || sw.Tag == nil {
-			return !done
+	seen := map[int64]bool{}
+	isInt := func(e ast.Expr) bool {
+		t := info.TypeOf(e)
+		if t == nil {
+			return false
 		}
-		var ks []int64
-		for _, cl := range sw.Body.List {
-			for _, e := range cl.(*ast.CaseClause).List {
-				v, isC := constInt(info, e)
-				if !isC {
-					return true
+		b, ok := t.Underlying().(*types.Basic)
+		return ok && b.Info()&types.IsInteger != 0
+	}
+	ast.Inspect(fi.Decl.Body, func(n ast.Node) bool {
+		switch t := n.(type) {
+		case *ast.SwitchStmt:
+			if t.Tag == nil || !isInt(t.Tag) {
+				return true
+			}
+			for _, cl := range t.Body.List {
+				for _, e := range cl.(*ast.CaseClause).List {
+					if v, isC := constInt(info, e); isC && !seen[v] {
+						seen[v] = true
+						keys = append(keys, v)
+						if pos == token.NoPos {
+							pos = t.Pos()
+						}
+					}
 				}
-				ks = append(ks, v)
+			}
+		case *ast.BinaryExpr:
+			if t.Op != token.EQL {
+				return true
+			}
+			for _, pr := range [][2]ast.Expr{{t.X, t.Y}, {t.Y, t.X}} {
+				if _, lc := constInt(info, pr[0]); lc {
+					continue
+				}
+				if v, isC := constInt(info, pr[1]); isC && isInt(pr[0]) && !seen[v] {
+					if call, isCall := unparen(pr[0]).(*ast.CallExpr); isCall {
+						if id, ok := call.Fun.(*ast.Ident); ok && id.Name == "len" {
+							continue // length tests are not dispatch keys
+						}
+					}
+					seen[v] = true
+					keys = append(keys, v)
+					if pos == token.NoPos {
+						pos = t.Pos()
+					}
+				}
 			}
 		}
-		if len(ks) > 0 {
-			keys, pos, done = ks, sw.Pos(), true
-		}
-		return !done
+		return true
 	})
 	return
 }
@@ -391,50 +421,29 @@ func (st *c12State) dsrChain() {
 		c.undecided("C12.c", key3, 0, "CursorPosition not found")
 		return
 	}
-	info := cp.Pkg.TypesInfo
+	// symbolic execution: the value received from the channel handleSequence sends on keeps its two slots
+	cpaths, _ := c12Run(c.P, cp, nil, nil)
 	n, okRet := 0, true
-	ast.Inspect(cp.Decl.Body, func(x ast.Node) bool {
-		cc, ok := x.(*ast.CommClause)
-		if !ok || cc.Comm == nil {
-			return true
+	var got string
+	for _, p := range cpaths {
+		if len(p.Ret) != 2 {
+			continue
 		}
-		as, ok := cc.Comm.(*ast.AssignStmt)
-		if !ok || len(as.Lhs) != 1 {
-			return true
+		a, okA := p.Ret[0].(c12Sym)
+		b, okB := p.Ret[1].(c12Sym)
+		if !okA || !okB || !strings.HasPrefix(a.Desc, "received ") || !strings.HasPrefix(b.Desc, "received ") {
+			continue // time-out path etc.
 		}
-		if u, ok := as.Rhs[0].(*ast.UnaryExpr); !ok || u.Op != token.ARROW || canonPath(info, u.X) != "Vaxis.chCursorPos" {
-			return true
+		n++
+		got = c12Show(a) + ", " + c12Show(b)
+		if !strings.HasSuffix(a.Desc, "[0]") || !strings.HasSuffix(b.Desc, "[1]") || a.K != -1 || b.K != -1 {
+			okRet = false
 		}
-		pos := info.ObjectOf(as.Lhs[0].(*ast.Ident))
-		for _, s := range cc.Body {
-			rs, ok := s.(*ast.ReturnStmt)
-			if !ok || len(rs.Results) != 2 {
-				continue
-			}
-			n++
-			for i, r := range rs.Results {
-				b, ok := unparen(r).(*ast.BinaryExpr)
-				if !ok || b.Op != token.SUB {
-					okRet = false
-					continue
-				}
-				k, isC := constInt(info, b.Y)
-				ix, isIx := unparen(b.X).(*ast.IndexExpr)
-				if !isC || k != 1 || !isIx || rootObj(info, ix.X) != pos {
-					okRet = false
-					continue
-				}
-				if j, ok := constInt(info, ix.Index); !ok || j != int64(i) {
-					okRet = false
-				}
-			}
-		}
-		return true
-	})
+	}
 	if n == 0 {
-		c.undecided("C12.c", key3, cp.Decl.Pos(), "receive arm of chCursorPos with a two-value return not found")
+		c.undecided("C12.c", key3, cp.Decl.Pos(), "no path of CursorPosition returns the two received values")
 	} else {
-		c.check(okRet, "C12.c", key3, cp.Decl.Pos(), "pos[0]-1, pos[1]-1", "the one-based report is not converted to the zero-based (row, col) pair in order")
+		c.check(okRet, "C12.c", key3, cp.Decl.Pos(), got, "the one-based report is not converted to the zero-based (row, col) pair in order: returns "+got)
 	}
 }
 
